@@ -269,7 +269,7 @@ fn check_lifecycle(frames: &[Value], rep: &mut Report, case: &Value) -> String {
 }
 
 async fn task_case(app: &axum::Router, data_dir: &std::path::Path, ws: &std::path::Path, rng: &mut Rng, rep: &mut Report, model: &mut Model) {
-    let kinds = ["plain", "both", "multibyte", "binary", "big", "exit7", "cancel", "invalid_args", "bad_cwd", "cwd_escape", "preview0", "preview2", "cap"];
+    let kinds = ["plain", "both", "multibyte", "binary", "big", "exit7", "cancel", "cancel_after_exit", "invalid_args", "bad_cwd", "cwd_escape", "preview0", "preview2", "cap"];
     let kind = *rng.pick(&kinds);
     let mut args = match kind {
         "plain" => json!({"command": "printf 'hello\\nworld\\n'"}),
@@ -279,6 +279,9 @@ async fn task_case(app: &axum::Router, data_dir: &std::path::Path, ws: &std::pat
         "big" => json!({"command": "head -c 20000 /dev/zero | tr '\\0' 'é' ; printf tail"}),
         "exit7" => json!({"command": "printf bye; exit 7"}),
         "cancel" => json!({"command": "printf start; sleep 5; printf never"}),
+        // the command itself exits at once; a background grandchild keeps the pipes open for a while: a
+        // cancel that arrives in between comes after the process has exited and before the terminal frame
+        "cancel_after_exit" => json!({"command": "printf started; sleep 0.9 &"}),
         "invalid_args" => json!({"command": 5}),
         "bad_cwd" => json!({"command": "true", "cwd": "no/such/dir"}),
         "cwd_escape" => json!({"command": "true", "cwd": "../x"}),
@@ -297,6 +300,10 @@ async fn task_case(app: &axum::Router, data_dir: &std::path::Path, ws: &std::pat
         return;
     }
     let id = created["task_id"].as_str().unwrap().to_string();
+    if kind == "cancel_after_exit" {
+        tokio::time::sleep(std::time::Duration::from_millis(rng.range(150, 500))).await;
+        let _ = call(app, "POST", &format!("/tasks/{id}/cancel"), Some(json!({"reason": "late"}))).await;
+    }
     if kind == "cancel" {
         tokio::time::sleep(std::time::Duration::from_millis(rng.range(0, 120))).await;
         let _ = call(app, "POST", &format!("/tasks/{id}/cancel"), Some(json!({"reason": "test"}))).await;
@@ -408,7 +415,7 @@ async fn task_case(app: &axum::Router, data_dir: &std::path::Path, ws: &std::pat
 pub fn run(opts: &Opts) -> Report {
     let mut rep = Report::new(
         "C17",
-        "unit: scripted chunk sequences (ASCII, multi-byte split across chunks, invalid UTF-8, up to 8 KiB) x caps {0..100000} through the real TaskLogWriter, read_artifact_range page walks, capture_stream (preview limits incl. 0, artifact caps incl. 0) and truncate_utf8; tasks: real background tasks through the HTTP router (plain, interleaved stdout/stderr, split multi-byte, binary, 40 KB, exit code, cancel at a random moment, invalid args, bad cwd, cwd escape, preview 0/2, cap 5); non-trivial = >=2 chunks (unit) or any task run, distinct by case",
+        "unit: scripted chunk sequences (ASCII, multi-byte split across chunks, invalid UTF-8, up to 8 KiB) x caps {0..100000} through the real TaskLogWriter, read_artifact_range page walks, capture_stream (preview limits incl. 0, artifact caps incl. 0) and truncate_utf8; tasks: real background tasks through the HTTP router (plain, interleaved stdout/stderr, split multi-byte, binary, 40 KB, exit code, cancel at a random moment, cancel after the command exited while a grandchild still holds its pipes, invalid args, bad cwd, cwd escape, preview 0/2, cap 5); non-trivial = >=2 chunks (unit) or any task run, distinct by case",
     );
     let mut model = Model::spawn();
     let rt = tokio::runtime::Builder::new_multi_thread().worker_threads(4).enable_all().build().unwrap();
